@@ -2,6 +2,7 @@ package main
 
 import (
 	"fmt"
+	"strings"
 	"go/types"
 	"sort"
 
@@ -81,7 +82,11 @@ func (E *Engine) loopSpec(m *Machine, f *Frame, l *Loop) *LoopSpec {
 	if len(m.Frames) > 1 || f.Fn != m.Top.Fn {
 		key = FuncName(f.Fn) + key
 		if f.Fn.Parent() != nil {
-			key = FuncName(f.Fn.Parent()) + "$" + f.Fn.Name() + fmt.Sprintf("#%d", l.Ordinal)
+			nm := f.Fn.Name()
+			if i := strings.LastIndex(nm, "$"); i >= 0 {
+				nm = nm[i+1:]
+			}
+			key = FuncName(f.Fn.Parent()) + "$" + nm + fmt.Sprintf("#%d", l.Ordinal)
 		}
 	}
 	return m.Top.C.Loops[key]
